@@ -1470,8 +1470,16 @@ class Interp:
             t = self.T(d['t'])
             l = fr.local(d['id'])
             if d.get('static'):
+                # function-local static: one object for the whole process, initialised the first time control passes here
                 l = (('SL', d['id']), ())
                 fr.vars[d['id']] = l
+                if all(any(k[0] == l[0] for k in s.mem) for s in cur):
+                    continue
+                if d.get('init') is None:
+                    for s in cur:
+                        if not any(k[0] == l[0] for k in s.mem):
+                            s.mem[(l[0], ('$def',))] = C(0)
+                    continue
             if t and t.get('k') == 'ref':
                 self._decl_is_ref[d['id']] = True
             if t and t.get('k') == 'rec' and ('~' + t.get('rec', '')) in self.models and fr.scopes:
